@@ -29,6 +29,8 @@ mod c10;
 #[cfg(kani)]
 mod c12;
 #[cfg(kani)]
+mod c13;
+#[cfg(kani)]
 mod c15;
 #[cfg(kani)]
 mod c03;
